@@ -73,11 +73,13 @@ WITNESS_GRAMMARS = {'w1': 'cmd ({{{ c1 }}} x | {{{ c2 }}} y);\n', 'w2': 'cmd p:(
 def witness_tables_tie(exe, res):
     """the tables used by the refutation theorems of Props/C17.v are what the pipeline emits for their grammars"""
     names = sorted(WITNESS_GRAMMARS)
-    dumps = impl.dump(exe, [WITNESS_GRAMMARS[n].encode() for n in names], ['tables'], ['bash'])
+    dumps = impl.dump(exe, [WITNESS_GRAMMARS[n].encode() for n in names], ['min', 'tables'], ['bash'])
     outs = model.run(['c17witness %s' % n for n in names])
     ok = 0
     for n, d, o in zip(names, dumps, outs):
         rust = d['bash'].get('TABLES')
+        if rust is not None:
+            rust = t2.with_subaccepting(rust, d['bash'].get('MIN'))
         if rust is not None and strip_tables(sexp.parse(rust)) == strip_tables(sexp.parse(o)):
             ok += 1
         else:
